@@ -242,6 +242,11 @@ func genEntryText(r *Rng) string {
 		if _, err := syntaxParse(t, false, false); err != nil {
 			continue
 		}
+		if r.Chance(1, 14) {
+			// a trailing blank is part of the expression: nothing between the parser and the rules
+			// file may trim it (stdin vs file, update, compare, format)
+			t += r.Pick([]string{" ", "\t", "  "})
+		}
 		return t
 	}
 	return "abc"
